@@ -17,7 +17,7 @@ EXPLANATION = ('llsym (real-algebraic) runs the real mj_energyVel, mj_energyPos 
                'completion), for the tree topologies of C06 with every stored entry of M and every velocity free. (2) On slide / hinge joints with linear and polynomial stiffness, and on tendons with a length dead-band, the potential '
                'energy that mj_energyPos reports is differentiated SYMBOLICALLY with respect to each joint position / tendon length, and z3 must show that the spring force mj_springdamper produces is exactly minus that gradient '
                '(for tendons: minus dE/dlength times the moment arm). (2b) mj_subtreeVel: the linear velocity of every subtree times its mass is the sum of the bodies\' momenta, and the angular momentum of a one-body subtree is R I R^T w about its centre of mass (inertial frame ximat). (3) The gravity term is -sum_i m_i g . xipos_i and vanishes with mjDSBL_GRAVITY; the spring term vanishes with mjDSBL_SPRING.')
-BOUNDS = {'quick': {'kinetic': 'chain3, fork3, twodof (nv = 3)', 'springs': '2 scalar joints, 1 tendon over both dofs'}, 'thorough': {'kinetic': 'plus chain4, fork4, mixed5', 'springs': '3 joints, 1 tendon'}}
+BOUNDS = {'quick': {'kinetic': 'chain3, fork3, twodof (nv = 3)', 'springs': '2 scalar joints, 1 tendon over both dofs'}, 'thorough': {'kinetic': 'plus chain4, fork4, mixed5', 'springs': 'same as quick', 'momentum': 'twodof, chain3, fork3'}}
 OUTSIDE = ('conservation of the total energy along RK4 trajectories and its fourth-order drift, conservation of momentum (multi-step floating-point trajectories: not a bounded query); ball / free joint springs (quaternion difference); '
            'angular momentum of subtrees with more than one body (the recursive accumulation about moving centres of mass is a rational identity nlsat does not finish; leaf subtrees are covered); flex edge springs; the gravitational force itself (it comes out of mj_rne, see C06).')
 ASSUMPTIONS = ['real-number semantics', 'sleep disabled', 'tendon_lengthspring[0] <= [1]', 'mj_stackAllocInfo returns a fresh block']
@@ -207,6 +207,6 @@ def so_smooth():
 def units(tier):
     u = [('kinetic_%s' % t, 'unit_kinetic', {'topo': t}) for t in (['chain3', 'fork3', 'twodof'] if tier == 'quick' else ['chain3', 'fork3', 'twodof', 'chain4', 'fork4', 'mixed5'])]
     u += [('momentum_%s' % t, 'unit_momentum', {'topo': t}) for t in (['twodof'] if tier == 'quick' else ['twodof', 'chain3', 'fork3'])]
-    for nv, nt in ([(2, 1)] if tier == 'quick' else [(2, 1), (3, 1)]):      # (3, 2) does not finish within the unit budget
+    for nv, nt in [(2, 1)]:      # three joints do not finish within the unit budget (every energy path x force path pair is differentiated)
         for f in (0, 1, 2): u.append(('springs_nv%d_nt%d_f%d' % (nv, nt, f), 'unit_springs', {'nv': nv, 'nt': nt, 'flags': f}))
     return u
